@@ -65,7 +65,7 @@ def grow_factor_tree(r, attrs, kmax=3):
     return cl
 
 
-KINDS = ['arbitrary', 'rip', 'fgtree', 'loop', 'dense', 'chain', 'star', 'disjoint', 'nested', 'sameset']
+KINDS = ['arbitrary', 'rip', 'fgtree', 'loop', 'dense', 'chain', 'star', 'disjoint', 'nested', 'sameset', 'deep']
 
 
 def gen_cliques(r, kind, attrs):
@@ -95,6 +95,14 @@ def gen_cliques(r, kind, attrs):
     elif kind == 'nested':
         k = min(3, n)
         cl = [A[:k], A[:max(1, k - 1)], [A[0]]] + [[A[i], A[i + 1]] for i in range(k - 1, n - 1)]
+    elif kind == 'deep':
+        # junction trees whose separators nest three deep (sliding windows of width 4, or a tapering tail): region graphs with four levels,
+        # where descendants, children, ancestors and parents all differ
+        w = min(4, max(2, n - 1))
+        if n >= 6 and r.random() < 0.4:
+            cl = [A[0:4], A[1:5], [A[2], A[3], A[5]]] + ([[A[3], A[6]]] if n >= 7 else [])
+        else:
+            cl = [A[i:i + w] for i in range(n - w + 1)]
     elif kind == 'sameset':
         # the same attribute set named in two orders: two distinct regions
         cl = [[A[i], A[i + 1]] for i in range(n - 1)] or [[A[0]]]
@@ -110,6 +118,11 @@ def gen_cliques(r, kind, attrs):
 def gen_case(r, max_cells=1500, nmin=2, nmax=6, kinds=KINDS):
     kind = r.choice(kinds)
     n = r.randint(max(nmin, 3 if kind == 'loop' else nmin), nmax)
+    if kind == 'deep':
+        n = r.choice([5, 6, 7, 7, 7, 8])
+        attrs = r.sample(NAMES, n)
+        dom = [[a, r.choice([2, 2, 2, 3] if i < 2 else [1, 2, 2, 2])] for i, a in enumerate(attrs)]
+        return dom, gen_cliques(r, kind, attrs), kind
     dom = gen_domain(r, n, max_cells)
     return dom, gen_cliques(r, kind, [a for a, _ in dom]), kind
 
@@ -173,13 +186,32 @@ def mk_domain(dom):
     return Domain([a for a, _ in dom], [s for _, s in dom])
 
 
+RETOTAL = {'late': 0, 'constructor': 0}
+
+
+def _late_total(cliques, total):
+    """half of the oracle objects are built with the default total and get `.total` assigned afterwards — what LocalInference._setup does with a
+    user-supplied oracle object; the other half receive it in the constructor"""
+    late = (len(cliques) + sum(len(c) for c in cliques) + int(float(total) * 7)) % 2 == 1
+    RETOTAL['late' if late else 'constructor'] += 1
+    return late
+
+
 def build_rg(dom, cliques, total, convex, minimal=True, **kw):
     from mbi import RegionGraph
+    if _late_total(cliques, total):
+        obj = RegionGraph(mk_domain(dom), [tuple(c) for c in cliques], convex=convex, minimal=minimal, **kw)
+        obj.total = total
+        return obj
     return RegionGraph(mk_domain(dom), [tuple(c) for c in cliques], total=total, convex=convex, minimal=minimal, **kw)
 
 
 def build_fg(dom, cliques, total, iters=25):
     from mbi import FactorGraph
+    if _late_total(cliques, total):
+        obj = FactorGraph(mk_domain(dom), [tuple(c) for c in cliques], convex=False, iters=iters)
+        obj.total = total
+        return obj
     return FactorGraph(mk_domain(dom), [tuple(c) for c in cliques], total=total, convex=False, iters=iters)
 
 
@@ -365,3 +397,20 @@ def max_abs_message(obj):
 
 
 DIVERGED = 1e12      # messages of this magnitude absorb log(total) in double precision: the cause of the recorded normalisation findings
+
+
+def explained_by_message_growth(tab, total, mm):
+    """is the normalisation defect of `tab` the float absorption caused by messages of magnitude `mm`?  The tables are
+    total*exp(b - logsumexp(b)) with |b| ~ mm, so the relative error of a cell is about ulp(mm) = 2.2e-16*mm: a deviation of the sums up to a small
+    multiple of that (or anything at all once mm >= 1e15, where log(total) is absorbed completely) is that phenomenon; a larger deviation, or any
+    deviation while the messages are small, is something else"""
+    if not (mm >= 1e6):
+        return False
+    if not (mm < 1e15):
+        return True
+    dev = 0.0
+    for cl, (attrs, vals) in tab.items():
+        if not all(math.isfinite(v) for v in vals) or any(v < 0 for v in vals):
+            return False
+        dev = max(dev, abs(math.fsum(vals) - total) / max(1.0, abs(total)))
+    return dev <= 64 * 2.22e-16 * mm
